@@ -119,6 +119,13 @@ def runCall (s : System) (c : Json) : Except String (Json × System) := do
       let ch ← getEnvVal getInt (← field c "chstt")
       let net' := { s.net with species := s.net.species.set i { sp with chstt := ch } }
       return (Json.mkObj [("ok", Json.null)], { s with net := net' })
+  | "assign_species" =>
+    let order ← (← getArr (← field c "order")).mapM getNat
+    match s.assignSpeciesOrder order with
+    | .ok s' => return (Json.mkObj [("ok", Json.null)], s')
+    | .error e => return (Json.mkObj [("error", errName e)], s)
+  | "assign_envs" =>
+    return (Json.mkObj [("ok", Json.null)], s.assignEnvs (← getStrList (← field c "envs")))
   | _ => throw s!"unknown call {k}"
 
 /-- `{"op":"rdsystem","net":…,"space":…,"sys":…,"calls":[…]}` -/
